@@ -155,7 +155,8 @@ BUILDS = [False]
 def corpus():
     """every operation on every kind of target, on both worlds"""
     stale = [c for c in hist.stale_handle_cases("c15", ["mem", "alt_mem", "ovl_mm"]) if not c.name.endswith("flush_drop")]
-    return hist.matrix_cases("c15", ["mem", "phys", "alt_mem", "ovl_mm", "ovl_pp"]) + stale
+    return hist.matrix_cases("c15", ["mem", "phys", "alt_mem", "ovl_mm", "ovl_pp"]) + stale + \
+        hist.open_handle_cases("c15", ["mem", "alt_mem", "ovl_mm", "ovl_m"])
 
 
 def generate(rng, tier):
